@@ -364,8 +364,23 @@ pub fn run_c18(ctx: &Ctx, sink: &mut Sink) {
                         tags.push("no-final-nul");
                     }
                 }
-                let f = ctx.tmp.join("names0");
-                std::fs::write(&f, &content).unwrap();
+                // the list comes from a regular file or, one time in five, from a named pipe (whose size says nothing)
+                let use_fifo = rng.chance(1, 5);
+                let f = ctx.tmp.join(if use_fifo { "names0.fifo" } else { "names0" });
+                let _ = std::fs::remove_file(&f);
+                let writer = if use_fifo {
+                    tags.push("named-pipe");
+                    let c = std::ffi::CString::new(f.to_str().unwrap()).unwrap();
+                    assert_eq!(unsafe { libc::mkfifo(c.as_ptr(), 0o600) }, 0, "mkfifo");
+                    let (p, data) = (f.clone(), content.clone());
+                    Some(std::thread::spawn(move || {
+                        use std::io::Write;
+                        if let Ok(mut w) = std::fs::OpenOptions::new().write(true).open(&p) { let _ = w.write_all(&data); }
+                    }))
+                } else {
+                    std::fs::write(&f, &content).unwrap();
+                    None
+                };
                 let flag = *rng.pick(&["P", "H", "L"]);
                 let (toks, expr) = if flag == "H" {
                     let t: Vec<String> = toks.iter().filter(|t| *t != "depth").cloned().collect();
@@ -380,6 +395,12 @@ pub fn run_c18(ctx: &Ctx, sink: &mut Sink) {
                 args.push(f.to_str().unwrap().into());
                 args.extend(expr.clone());
                 let o = find_inproc(&ctx.tmp.join("stderr-find"), &args, std::time::SystemTime::now(), Some(&sc.dir));
+                if let Some(h) = writer {
+                    // (if find never opened the pipe, let the writer's open() return)
+                    use std::os::unix::fs::OpenOptionsExt;
+                    let _ = std::fs::OpenOptions::new().read(true).custom_flags(libc::O_NONBLOCK).open(&f);
+                    let _ = h.join();
+                }
                 let req = format!("find0 {flag} {} {} {}", hex(&content), wm, toks.join(","));
                 sink.push(Case { req, imp: show(&o), tags });
                 let _ = std::fs::remove_file(&f);
